@@ -333,6 +333,7 @@ def mechanism_c09(scn, test):
     attempt("hashseed", set_all("hashseed", ws[0].get("hashseed", 0)), len({w.get("hashseed", 0) for w in ws}) > 1)
     attempt("enum-order", set_all("enum_seed", 0), any(w.get("enum_seed") for w in ws))
     attempt("env", set_all("env", {"LC_ALL": None, "opt": ""}), any((w.get("env") or {}) != {"LC_ALL": None, "opt": ""} for w in ws))
+    attempt("clock-or-random", set_all("env_seed", 0), any(w.get("env_seed") for w in ws))
 
     def io_default(t):
         for w in t["worlds"]:
@@ -497,6 +498,7 @@ def run_check(prop, tier, master, only_index=None):
     known = load_known()
     totals = {}
     fs_totals = {}
+    env_totals = {}
     digests = set()
     nontriv = set()
     samples = []
@@ -509,6 +511,7 @@ def run_check(prop, tier, master, only_index=None):
     enum_seeds = set()
     families = {}
     first_digests = {}
+    pm_jobs = []
     indices = range(n) if only_index is None else [only_index]
     chunk = 48
     idx_list = list(indices)
@@ -536,6 +539,7 @@ def run_check(prop, tier, master, only_index=None):
             for o in outs:
                 add_counters(totals, o.get("counters"))
                 add_counters(fs_totals, o.get("fs"))
+                add_counters(env_totals, o.get("envsim"))
                 for it in o.get("interleavings", []):
                     if it.get("switches"):
                         interleavings.add(it["digest"])
@@ -554,6 +558,8 @@ def run_check(prop, tier, master, only_index=None):
                 })
             if viols:
                 failing.append((i, scn, viols))
+            elif prop == "C20" and i % (16 if tier == "quick" else 40) == 0:
+                pm_jobs.append(pool().submit(validate_process_model, scn, outs))
         if failing and (tier == "quick" or len(failing) >= 12):
             break
     # ---- determinism gate on a sample: same scenario, fresh interpreters, twice
@@ -569,6 +575,16 @@ def run_check(prop, tier, master, only_index=None):
                 continue
             if [world_digest(o) for o in outs] != first_digests[i]:
                 unstable.append(i)
+    pm = {"runs_compared_with_real_child": 0, "mismatches": 0, "details": []}
+    for j in pm_jobs:
+        try:
+            c, m, d = j.result()
+        except Exception as ex:  # noqa: BLE001
+            c, m, d = 0, 0, [{"error": str(ex)[:200]}]
+        pm["runs_compared_with_real_child"] += c
+        pm["mismatches"] += m
+        pm["details"] += d[:3]
+    pm["details"] = pm["details"][:5]
     # ---- violations: minimise, confirm, match against known findings
     exit_code = 0
     reported = []
@@ -662,12 +678,14 @@ def run_check(prop, tier, master, only_index=None):
             "simulated_steps": totals.get("sched_events", 0),
             "counters": totals,
             "fs_counters": fs_totals,
+            "clock_and_random_seam": dict(env_totals, note="simulated clock / urandom / random.seed per world; reads by the code under test (0 = the tree consults neither, the seam is inert)"),
             "faults_injected": fault_summary(prop, totals, fs_totals, hashseeds, enum_seeds),
             "distinct_interleavings": len(interleavings),
             "distinct_hash_seeds": len(hashseeds),
             "distinct_enum_seeds": len(enum_seeds),
             "families": families,
             "determinism_gate": {"rerun": len(gate_idx), "unstable": len(unstable)},
+            "process_model_validation": pm if prop == "C20" else None,
             "known_findings_hit": sorted(set(known_lines)),
             "harness_errors": [f"{i}: {e}"[:300] for i, e in harness_errors[:5]],
             "real_vs_stub": {
@@ -687,6 +705,10 @@ def run_check(prop, tier, master, only_index=None):
     warn = []
     print(f"{prop} {tier}: {evaluations} scenarios, {worlds_run} worlds, {len(nontriv)} distinct non-trivial, {wall:.1f}s; "
           f"violations={len(reported)} known={len(set(known_lines))} harness_errors={len(harness_errors)} unstable={len(unstable)}")
+    if prop == "C20":
+        print(f"process-model validation: {pm['runs_compared_with_real_child']} fault-free runs repeated as real child processes, {pm['mismatches']} mismatches")
+        for d in pm["details"]:
+            print("  WARNING process-model mismatch:", json.dumps(d)[:400])
     if harness_errors:
         for i, e in harness_errors[:5]:
             print(f"HARNESS-ERROR scenario {i}: {e}"[:1500])
@@ -695,6 +717,69 @@ def run_check(prop, tier, master, only_index=None):
     if exit_code == 0 and (harness_errors or unstable):
         exit_code = 2
     return exit_code
+
+
+_LAUNCHER = (
+    "import sys, types, importlib.util\n"
+    "sys.path.insert(0, sys.argv.pop(1))\n"
+    "try:\n"
+    "    ok = importlib.util.find_spec('multidecoder._version') is not None\n"
+    "except Exception:\n"
+    "    ok = False\n"
+    "if not ok:\n"
+    "    m = types.ModuleType('multidecoder._version'); m.version = m.__version__ = '0.0.0+verif.stub'\n"
+    "    sys.modules['multidecoder._version'] = m\n"
+    "import runpy\n"
+    "sys.argv[0] = 'multidecoder'\n"
+    "runpy.run_module('multidecoder', run_name='__main__')\n"
+)
+
+
+def validate_process_model(scn, outs):
+    """Stub validation (not the deciding step): repeat the fault-free runs of a
+    C20 scenario as a real `python -m multidecoder` child with real pipes and
+    files and compare its stdout with what the simulated process wrote."""
+    import fsim
+
+    w = scn["worlds"][0]
+    o = outs[0]
+    _counter[0] += 1
+    scratch = os.path.join(SCRATCH_TOP, f"real{_counter[0]}")
+    os.makedirs(scratch, exist_ok=True)
+    compared = mismatched = 0
+    details = []
+    try:
+        kwdir = None
+        if scn.get("layout"):
+            kwdir = os.path.join(scratch, "kw")
+            fsim.materialise(scn["layout"], kwdir)
+        data = bytes.fromhex(scn["input"])
+        infile = os.path.join(scratch, "input.bin")
+        with open(infile, "wb") as fh:
+            fh.write(data)
+        evs = {e["op"]: e for e in o.get("events", []) if "op" in e}
+        for ri, run in enumerate(w["runs"]):
+            ev = evs.get(ri)
+            if not ev or ev.get("faulty"):
+                continue
+            flag = {"json": "--json", "replace": "--replace", "default": None}[run["mode"]]
+            argv = [flag] if flag else []
+            if kwdir:
+                argv += ["--keywords", kwdir]
+            if run["source"] == "file":
+                argv.append(infile)
+            env = {"PATH": os.environ.get("PATH", ""), "PYTHONHASHSEED": str(w.get("hashseed", 0)), "PYTHONDONTWRITEBYTECODE": "1",
+                   "PYTHONIOENCODING": "utf-8", "PYTHONWARNINGS": "ignore"}
+            p = subprocess.run([PY, "-c", _LAUNCHER, os.path.join(REPO, "src")] + argv, input=(b"" if run["source"] == "file" else data),
+                               stdout=subprocess.PIPE, stderr=subprocess.PIPE, env=env, timeout=120)
+            compared += 1
+            if p.returncode != ev["status"] or model.digest(p.stdout.hex()) != ev["out"]:
+                mismatched += 1
+                details.append({"run": ri, "mode": run["mode"], "real_status": p.returncode, "sim_status": ev["status"],
+                                "real_len": len(p.stdout), "sim_len": ev["out_len"], "stderr": p.stderr[-200:].decode("utf-8", "replace")})
+    finally:
+        shutil.rmtree(scratch, ignore_errors=True)
+    return compared, mismatched, details
 
 
 def fault_summary(prop, totals, fs, hashseeds, enum_seeds):
